@@ -696,7 +696,7 @@ def check_conv(case, H):
             H.note('semantic-agree')
         # ---- idempotence for the normalisers that decide equalities (also covered on pairs)
         if head in CANON_CONVS and changed:
-            idem_check(cv, pt.prop.rhs, case, H, label, input_feature(t))
+            idem_check(cv, pt.prop.rhs, case, H, label, input_feature(t, head))
     H.case(case, changed, klass + ['outcome:changed' if changed else 'outcome:unchanged'])
 
 
@@ -720,20 +720,24 @@ def idem_check(cv, rhs, case, H, label, feature):
                     'normal form %s is normalised again to %s' % (rhs, r2))
 
 
-def prop_feature(rt):
-    """Feature of a propositional input of the conj / disj normalisers (computed from the term)."""
+def prop_feature(rt, prefer_compound=False):
+    """Feature of a propositional input of the conj / disj normalisers (computed from the term).  For sort_conj /
+    sort_disj (which treat non-literal members specially) compound members take precedence."""
     s = repr(rt)
     if "'equals'" in s:
         return 'with-iff'
     h, args = L.r_head_args(rt)
     op = h[1] if h[0] == 'const' and h[1] in ('conj', 'disj') and len(args) == 2 else None
+    collapses = None
     if op is not None:
         tt = ('const', 'true', ref.BOOL) if op == 'disj' else ('const', 'false', ref.BOOL)
         if L.prop_refute(rt, tt)[1] == 'agree':
-            return 'contradictory-conjunction' if op == 'conj' else 'valid-disjunction'
+            collapses = 'contradictory-conjunction' if op == 'conj' else 'valid-disjunction'
         ms = L.members_ref(rt, op)
     else:
         ms = [repr(ref.canon(rt))]
+    if collapses and not prefer_compound:
+        return collapses
 
     def literal(m):
         return m.startswith("('var'") or (m.startswith("('app', ('const', 'neg'") and "('var'" in m and m.count("'const'") == 1)
@@ -742,14 +746,16 @@ def prop_feature(rt):
         return m.startswith("('const', 'true'") or m.startswith("('const', 'false'")
     if any(not literal(m) and not const(m) for m in ms):
         return 'compound-members'
+    if collapses:
+        return collapses
     if any(const(m) for m in ms):
         return 'with-true-false'
     return 'literals'
 
 
-def input_feature(t):
+def input_feature(t, head=None):
     if arith.term_type(t) == 'bool':
-        return prop_feature(ref.from_term(t))
+        return prop_feature(ref.from_term(t), head in ('proplogic.sort_conj', 'proplogic.sort_disj'))
     rt = ref.from_term(t)
     kind = arith.term_type(t)
     if kind in ('nat', 'real'):
@@ -810,7 +816,7 @@ def check_canon(case, H):
             raise CaseInvalid('different member sets')
         if len(m1) < 2 or len(m2) < 2:
             raise CaseInvalid('not a %sunction' % dom)
-        feature = prop_feature(r1)
+        feature = prop_feature(r1, conv_head(d) in ('proplogic.sort_conj', 'proplogic.sort_disj'))
         extra_class = []
     else:
         raise CaseInvalid('dom')
